@@ -43,9 +43,10 @@ const (
 	OpYield                 // explicit yield from the harness
 	OpCond                  // Cond.Wait re-acquire
 	OpNet                   // simulated socket operation
+	OpQuiesce               // wait until every other task is idle
 )
 
-var opNames = [...]string{"start", "atomic", "lock", "wlock1", "wlock2", "rlock", "wgwait", "once", "chan", "wake", "select", "pool", "gosched", "yield", "cond", "net"}
+var opNames = [...]string{"start", "atomic", "lock", "wlock1", "wlock2", "rlock", "wgwait", "once", "chan", "wake", "select", "pool", "gosched", "yield", "cond", "net", "quiesce"}
 
 func (k OpKind) String() string {
 	if int(k) < len(opNames) {
@@ -840,12 +841,7 @@ func (s *Sim) Run(main func()) {
 		if mainTask.state == stDone {
 			break
 		}
-		s.elig = s.elig[:0]
-		for _, t := range s.tasks {
-			if s.eligible(t) {
-				s.elig = append(s.elig, t)
-			}
-		}
+		s.collect()
 		if len(s.elig) == 0 {
 			if idle >= s.Cfg.MaxIdleAdv {
 				s.Deadlock = s.describeStuck()
@@ -1033,6 +1029,33 @@ func (s *Sim) describeStuck() string {
 	return out
 }
 
+// collect fills s.elig with the eligible tasks. A task waiting in Quiesce is
+// eligible only when nothing else is.
+//
+//go:norace
+func (s *Sim) collect() {
+	s.elig = s.elig[:0]
+	for _, t := range s.tasks {
+		if t.reqKind != OpQuiesce && s.eligible(t) {
+			s.elig = append(s.elig, t)
+		}
+	}
+	if len(s.elig) > 0 {
+		return
+	}
+	for _, t := range s.tasks {
+		if t.reqKind == OpQuiesce && t.state == stParked {
+			s.elig = append(s.elig, t)
+		}
+	}
+}
+
+// Quiesce parks the caller until no other task can run at the current time
+// (all others finished, waiting, or blocked until the clock moves).
+//
+//go:norace
+func Quiesce() { Point(OpQuiesce, nil) }
+
 // nextRR picks the eligible task with the smallest id above the last one
 // served, wrapping around.
 //
@@ -1065,12 +1088,7 @@ func (s *Sim) finish(mainTask *Task) {
 	if len(s.Panics) == 0 && s.Deadlock == "" && s.Livelock == "" {
 		for i := 0; i < s.Cfg.DrainSteps; i++ {
 			synctest.Wait()
-			s.elig = s.elig[:0]
-			for _, t := range s.tasks {
-				if s.eligible(t) {
-					s.elig = append(s.elig, t)
-				}
-			}
+			s.collect()
 			if len(s.elig) == 0 {
 				break
 			}
